@@ -322,3 +322,115 @@ theorem startPush_spec (q : QState) (hi : Inv q) (hnn : NN q) (v : View) (cs : L
             mail := by intro c x; rw [e.mail c x, hmail1 c, hfr]; simp [hd'] }
 
 end IstioModel.C02
+
+namespace IstioModel.C02
+
+/-! ## Logs -/
+
+theorem mem_logOf_snoc (l : List LogE) (c c' : Conn) (v : Option Nat) (fs : List Fact) (x : Fact) :
+    x ∈ logOf (l ++ [(c, v, fs)]) c' ↔ (x ∈ logOf l c' ∨ (c' = c ∧ x ∈ fs)) := by
+  unfold logOf
+  by_cases h : c = c'
+  · subst h; simp [List.filter_append]
+  · have h' : c' ≠ c := fun e => h e.symm
+    simp [List.filter_append, h, h']
+
+theorem mem_logOf_append_map (l : List LogE) (cs : List Conn) (c' : Conn) (v : Option Nat) (fs : List Fact) (x : Fact) :
+    x ∈ logOf (l ++ cs.map (fun c => (c, v, fs))) c' ↔ (x ∈ logOf l c' ∨ (c' ∈ cs ∧ x ∈ fs)) := by
+  induction cs generalizing l with
+  | nil => simp
+  | cons c cs ih =>
+    have : l ++ (c :: cs).map (fun c => (c, v, fs)) = (l ++ [(c, v, fs)]) ++ cs.map (fun c => (c, v, fs)) := by simp
+    rw [this, ih, mem_logOf_snoc]
+    simp only [List.mem_cons]
+    constructor
+    · rintro ((h | ⟨h1, h2⟩) | ⟨h1, h2⟩)
+      · exact Or.inl h
+      · exact Or.inr ⟨Or.inl h1, h2⟩
+      · exact Or.inr ⟨Or.inr h1, h2⟩
+    · rintro (h | ⟨h1 | h1, h2⟩)
+      · exact Or.inl (Or.inl h)
+      · exact Or.inl (Or.inr ⟨h1, h2⟩)
+      · exact Or.inr ⟨h1, h2⟩
+
+theorem logOf_nil (c : Conn) : logOf [] c = [] := rfl
+
+/-! ## Where the debounce loop's pending facts go -/
+
+theorem pushWorker_flow (o : DOpts) (t : DB) (x : Fact) (hx : x ∈ factsO t.req) :
+    x ∈ factsO (pushWorker o t).req ∨ x ∈ factsL (newPushes t (pushWorker o t)) := by
+  unfold pushWorker
+  split
+  · cases hr : t.req with
+    | none => rw [hr] at hx; simp [factsO] at hx
+    | some v =>
+      right
+      rw [hr] at hx
+      simp only [newPushes, List.drop_left', List.drop_length, List.append_nil, factsL_single]
+      exact hx
+  · exact Or.inl hx
+
+theorem pushWorker_eds (o : DOpts) (t : DB) : (pushWorker o t).edsPushed = t.edsPushed := by
+  unfold pushWorker; split
+  · cases t.req <;> rfl
+  · rfl
+
+/-- Facts pending in the debounce loop stay pending or go to `pushFn`; a received request's facts
+    become pending or go to `pushFn` (bypass). -/
+theorem stepD_req_flow (o : DOpts) (s s' : DB) (e : Ev) (h : stepD o s e = some s') (x : Fact) :
+    (x ∈ factsO s.req → x ∈ factsO s'.req ∨ x ∈ factsL (newPushes s s')) ∧
+    (∀ r, e = .recv r → x ∈ factsV r → x ∈ factsO s'.req ∨ x ∈ factsL (newPushes s s')) := by
+  cases e with
+  | tick d =>
+    simp only [stepD, Option.some.injEq] at h; subst h
+    exact ⟨fun hx => Or.inl hx, fun r hr => by cases hr⟩
+  | recv r =>
+    simp only [stepD, Option.some.injEq] at h; subst h
+    unfold onRecv; simp only []
+    split
+    · refine ⟨fun hx => Or.inl hx, fun r' hr hx => ?_⟩
+      cases hr
+      right
+      simp only [newPushes, List.drop_length, List.drop_left', List.nil_append, factsL_single, factsV_fixReason]
+      exact hx
+    · refine ⟨fun hx => Or.inl ((factsO_liftO _ _ x).mpr (Or.inl hx)), fun r' hr hx => ?_⟩
+      cases hr
+      exact Or.inl ((factsO_liftO _ _ x).mpr (Or.inr (by rw [factsV_fixReason]; exact hx)))
+  | timer =>
+    refine ⟨fun hx => ?_, fun r hr => by cases hr⟩
+    simp only [stepD] at h
+    cases ht : s.timerAt with
+    | none => simp [ht] at h
+    | some t =>
+      simp only [ht] at h
+      split at h
+      · simp only [Option.some.injEq] at h; subst h
+        split
+        · exact pushWorker_flow o { s with timerAt := none } x hx
+        · exact Or.inl hx
+      · cases h
+  | pushReturn =>
+    refine ⟨fun hx => ?_, fun r hr => by cases hr⟩
+    simp only [stepD] at h
+    cases hr : s.running with
+    | nil => simp [hr] at h
+    | cons a rest =>
+      simp only [hr] at h
+      split at h
+      · cases h
+      · simp only [Option.some.injEq] at h; subst h; exact Or.inl hx
+  | freeRecv =>
+    refine ⟨fun hx => ?_, fun r hr => by cases hr⟩
+    simp only [stepD] at h
+    split at h
+    · simp only [Option.some.injEq] at h; subst h
+      exact pushWorker_flow o { s with freeTok := false, free := true } x hx
+    · cases h
+  | edsReturn =>
+    refine ⟨fun hx => ?_, fun r hr => by cases hr⟩
+    simp only [stepD] at h
+    cases hr : s.edsRunning with
+    | nil => simp [hr] at h
+    | cons a rest => simp only [hr, Option.some.injEq] at h; subst h; exact Or.inl hx
+
+end IstioModel.C02
